@@ -94,6 +94,18 @@ def matrix_batch(acc, batch):
                               msg=f"slurm squeue={sq} sacct={sa} accounting={'on' if accounting else 'off'}: shown {got!r}, allowed {sorted(allowed)}")
             if not accounting and sacct_calls:
                 acc.violation(sig=dict(kind="matrix-sacct-called"), case=case, observed=[e["argv"] for e in sacct_calls], msg="accounting disabled but sacct was invoked")
+            if not accounting and fresh:
+                # ... not even when the live queue cannot be reached
+                for fk in ("rc1", "stderr_error"):
+                    wf2 = w.copy()
+                    wf2.sim["faults"] = {"squeue#0": fk}
+                    with W.Session(wf2) as s2:
+                        r2 = s2.gwf(["status"])
+                        called = [e["argv"] for e in s2.sim.s["journal"] if e["op"] == "call" and e["exe"] == "sacct"]
+                    acc.extra["invocations"] += 1
+                    if called:
+                        acc.violation(sig=dict(kind="matrix-sacct-called-on-squeue-failure"), case=dict(case, squeue_fault=fk), observed=called,
+                                      msg=f"accounting disabled, squeue failing ({fk}): sacct was consulted anyway")
             if accounting and rows is not None and rows.get("U") != "submitted":
                 acc.violation(sig=dict(kind="matrix-U"), case=case, observed=rows, msg="unrelated pending target U not shown submitted")
 
@@ -189,8 +201,8 @@ def hist_expand(acc, batch, last=False, meta=None):
         hist_probe(acc, world, trace, meta)
         if last:
             continue
-        acts = [("gwf", ["run"]), ("gwf", ["run", world.wf.names()[1]])]
-        acts += CW.enabled_env(world)
+        acts = [("gwf", ["run"]), ("gwf", ["run", world.wf.names()[1]]), ("gwf", ["status"])]
+        acts += CW.enabled_env(world, kinds=("start", "finish_ok", "finish_fail", "timeout", "cancel", "forget", "requeue"))
         if meta["backend"] == "slurm" and meta["accounting"]:
             for t in world.wf.targets:
                 j = CW.latest_job(world, t.name)
@@ -225,7 +237,17 @@ def run(ctx):
     for wfname, backend, acct, depth in (HIST_QUICK if quick else HIST_THOROUGH):
         meta = dict(wf=wfname, backend=backend, accounting=acct, hashing=False, fresh=False)
         w0 = CW.init_world(wfname, backend, accounting=acct)
-        lv = e2.bfs(ctx, me, "hist_expand", [w0], depth, chunk=4, meta=meta)
+        inits = [w0]
+        if backend == "slurm":
+            # also start from a history in which gwf has *seen* a failed job that the scheduler then requeues under the same id
+            first = w0.wf.names()[0]
+            prefix = [("gwf", ["run", first]), ("env", "start", first), ("env", "finish_fail", first), ("gwf", ["status"]), ("env", "requeue", first)]
+            w = w0
+            for a in prefix:
+                w, _ = CW.apply_action(w, a)
+                w.normalize()
+            inits.append((w, [list(a) for a in prefix]))
+        lv = e2.bfs(ctx, me, "hist_expand", inits, depth, chunk=4, meta=meta)
         done.append(dict(meta, depth=depth))
     local_done = localchecks.run_local(ctx, me, ID, [("twocomp", 4), ("fork", 3)] if ctx.tier == "quick" else [("twocomp", 6), ("fork", 5), ("chain", 5)])
     ctx.notes.setdefault("coverage_extra", {})["local_backend"] = local_done
